@@ -20,7 +20,7 @@ func run(o hx.RunOpts) error {
 	nprog := o.N(16, 60)
 	for i := 0; i < nprog; i++ {
 		pr := commitx.Gen(p.Fork())
-		pr.SepVals = false
+		pr.SepVals, pr.Sep = false, nil
 		for _, mode := range []struct {
 			same, rb bool
 			api      int
@@ -70,7 +70,7 @@ func run(o hx.RunOpts) error {
 	nfail := o.N(6, 40)
 	for i := 0; i < nfail; i++ {
 		pr := commitx.Gen(p.Fork())
-		pr.SepVals = false
+		pr.SepVals, pr.Sep = false, nil
 		base, err := commitx.Run(ctx, pr, "", 0, txk.None, false)
 		if err != nil {
 			return err
